@@ -123,6 +123,12 @@ def build():
     a(("train-template", table(3, 3, attrs='class="train"')))
     a(("mp-upper", table(1, 2, attrs='id="mp-upper"')))
     a(("short-para", "ab\n\ncd\n"))
+    a(("image-plain", "[[File:A.png]]"))
+    a(("table-in-caption-div", "[[File:A.png|thumb|cap <div>\n" + table(2, 2) + "</div>]]\n"))
+    a(("table-in-caption", "[[File:A.png|thumb|cap\n" + table(1, 2) + "]]\n"))
+    a(("nested-indent-tables", ":{|\n|-\n| outer\n:{|\n|-\n| inner || x\n|}\n|}\n"))
+    a(("sparse-last-row", "{|\n| a || b\n|-\n| c ||\n|}\n"))
+    a(("sparse-rows", "{|\n| a ||\n|-\n|  || d\n|}\n"))
     a(("h2-then-p", "<div><h2>S</h2><p>para after html heading</p></div>\n"))
     a(("h2-then-p-top", "<h2>S</h2><p>para</p>\n"))
     a(("h3-in-cell-p", "{|\n| <h3>S</h3><p>para</p>\n|}\n"))
